@@ -107,12 +107,15 @@ impl MetricsServer {
             .layer(TraceLayer::new_for_http());
         // .fallback(not_found.into_service());
 
+        // bind now so that an unusable address is reported as a configuration error
+        let server = axum::Server::try_bind(&self.bind)
+            .map_err(|e| easy_error::err_msg(format!("metrics server bind {}: {}", self.bind, e)))?
+            .serve(root.into_make_service());
         tokio::spawn(async move {
             info!("metrics server listening on {}", self.bind);
-            axum::Server::bind(&self.bind)
-                .serve(root.into_make_service())
-                .await
-                .unwrap();
+            if let Err(e) = server.await {
+                tracing::error!("metrics server error: {}", e);
+            }
         });
 
         Ok(())
